@@ -1163,6 +1163,13 @@ async fn run_world(seed: u64, wi: u64, nq: usize, nl: usize, sel: Sel, drv: &mut
             rep.note(format!("world {wi}: {n}"));
         }
     }
+    // `--selftest drop-acp`: hide one generated ACP from the model and the oracle, so that the server
+    // grants more than the reference does — both channels must report it (sanity check of the check)
+    if std::env::args().any(|a| a == "drop-acp") {
+        if let Some(i) = w.acps.iter().position(|a| a.name.starts_with("c23acp") && !matches!(a.receiver, Recv::None) && a.target.is_some()) {
+            w.acps.remove(i);
+        }
+    }
     // model state
     let dbline = format!("db | {}", w.db.iter().map(|e| enc_ent(at, e)).collect::<Vec<_>>().join(";"));
     let reply = drv.ask(&dbline);
@@ -1253,7 +1260,13 @@ async fn run_world(seed: u64, wi: u64, nq: usize, nl: usize, sel: Sel, drv: &mut
         }
     }
     let mut lr = Rng::for_case(seed ^ 0x1DA9_1DA9, wi);
-    let lqs: Vec<LQuery> = (0..nl).map(|_| rand_lquery(&mut lr, &w)).collect();
+    let mut lqs: Vec<LQuery> = (0..nl).map(|_| rand_lquery(&mut lr, &w)).collect();
+    // D25 regression (fixed): `+` / `homedirectory` must not release /home/<uuid> where uuid is not readable
+    if nl >= 2 && !w.users.is_empty() {
+        let who = w.users[(wi as usize) % w.users.len()];
+        lqs[0] = LQuery { id: LId::Token(who, Scope::Rw), op: LOp::Search { base: BASEDN.into(), scope: LdapSearchScope::Subtree, filter: LdapFilter::Present("class".into()), attrs: vec!["+".into()] } };
+        lqs[1] = LQuery { id: LId::Token(who, Scope::Ro), op: LOp::Search { base: BASEDN.into(), scope: LdapSearchScope::Subtree, filter: LdapFilter::Present("objectclass".into()), attrs: vec!["homedirectory".into(), "cn".into()] } };
+    }
     for (li, q) in lqs.iter().enumerate() {
         match sel {
             Sel::All => {}
@@ -1677,7 +1690,9 @@ async fn run_ldap_query(w: &World, ldaps: &LdapServer, dn_of: &BTreeMap<String, 
                                     names.extend(rel.iter().cloned());
                                 }
                                 for l in &plan.l_attrs {
-                                    let always = matches!(l.as_str(), "dn" | "entrydn" | "homedirectory");
+                                    // dn / entrydn name the entry; everything else (homedirectory = /home/<uuid>
+                                    // included, D25) needs its kanidm attribute in the reduced entry
+                                    let always = matches!(l.as_str(), "dn" | "entrydn");
                                     let k = vattr(l).map(|s| s.to_string()).unwrap_or(l.clone());
                                     if always || rel.contains(&k) {
                                         names.insert(l.clone());
